@@ -151,6 +151,7 @@ func (p *Prog) normalise() {
 				return true
 			})
 			if os.Getenv("PINTSA_NO_PURETEMPS") == "" {
+				normaliseIndexLoops(info, pkg.Types, f)
 				inlinePureTemps(info, f)
 			}
 			normaliseChains(f)
